@@ -159,12 +159,12 @@ def leaf_of(rnd, k):
         rnd.choice = saved
 
 
-def systematic(seed_, n):
+def systematic(seed_, n, pool=None):
     """documents '<container>{ leaf a, leaf b, leaf c }' for a seeded sample of all (container, a, b, c)"""
     rnd = random.Random(0x5eed)
     combos = [(c, a, b, d) for c in ("bq", "bq-nospace", "ul", "ol", "bq-ul", "ul-bq", "top") for a in LEAF_KINDS for b in LEAF_KINDS for d in LEAF_KINDS + ["ul-item", "ol-item"]]
     rnd.shuffle(combos)
-    combos = combos[:SYS_POOL]
+    combos = combos[:(pool or SYS_POOL)]
     pick = set(range(len(combos))) if n >= len(combos) else set(random.Random(seed_).sample(range(len(combos)), n))
     out = []
     for ci, (c, a, b, d) in enumerate(combos):
